@@ -60,7 +60,12 @@ def parse(text, want=None):
                 name = m.group(1)
                 if want is None or want(name):
                     cur = Func(name, m.group(2), m.group(3))
-                    funcs[name] = cur
+                    # macro-generated impls share one source span and hence one printed name
+                    key, k = name, 1
+                    while key in funcs:
+                        k += 1
+                        key = "%s #%d" % (name, k)
+                    funcs[key] = cur
             continue
         if line == "}":
             _finish(cur)
